@@ -150,17 +150,23 @@ pub fn render_wide(_args: &[String]) -> String {
             }
         }
         for msg in ["", "hi", "hello world, this is a long message that does not fit"] {
-            for (t, trailing) in [("ab{wide_msg}cd", false), ("x{wide_msg}", true), ("{pos} {wide_msg}", true)] {
+            for (t, trailing, al) in [("ab{wide_msg}cd", false, '<'), ("x{wide_msg}", true, '<'), ("{pos} {wide_msg}", true, '<'),
+                                      ("ab{wide_msg:>}cd", false, '>'), ("x{wide_msg:>}", true, '>'), ("x{wide_msg:^}", true, '^'), ("ab{wide_msg:^}cd", false, '^')] {
                 let style = ProgressStyle::with_template(t).unwrap();
                 let f = frame(&style, Some(10), 3, msg, "", 0, 0, width);
                 tried += 1;
-                let (head, tail) = match t { "ab{wide_msg}cd" => ("ab", "cd"), "x{wide_msg}" => ("x", ""), _ => ("3 ", "") };
+                let (head, tail) = if t.starts_with("ab") { ("ab", "cd") } else if t.starts_with('x') { ("x", "") } else { ("3 ", "") };
                 let left = (width as usize).saturating_sub(head.len() + tail.len());
-                let shown: String = msg.chars().take(left).collect();
-                let mut want = format!("{}{:<w$}{}", head, shown, tail, w = left);
+                // truncation keeps the start (left), the end (right) or the middle (centre) of the message
+                let ml = msg.chars().count();
+                let shown: String = if ml <= left { msg.to_string() } else {
+                    let excess = ml - left;
+                    match al { '<' => msg.chars().take(left).collect(), '>' => msg.chars().skip(excess).collect(), _ => msg.chars().skip(excess / 2).take(left).collect() }
+                };
+                let padded = match al { '<' => format!("{:<w$}", shown, w = left), '>' => format!("{:>w$}", shown, w = left), _ => format!("{:^w$}", shown, w = left) };
+                let mut want = format!("{}{}{}", head, padded, tail);
                 if trailing {
-                    // only the padding of the message is dropped, the rest of the line stays
-                    let padded = format!("{:<w$}", shown, w = left);
+                    // only the trailing padding of the message is dropped, the rest of the line stays
                     want = format!("{}{}", head, padded.trim_end());
                 }
                 let ok = f.lines.len() == 1 && f.lines[0].1 == want;
@@ -168,6 +174,47 @@ pub fn render_wide(_args: &[String]) -> String {
                     let got: Vec<&str> = f.lines.iter().map(|l| l.1.as_str()).collect();
                     return format!("{{\"found\": true, \"clause\": \"C12 wide_msg shows the message padded / truncated to the free columns\", \"tried\": {}, \"input\": {{\"template\": {}, \"width\": {}, \"msg\": {}, \"expected\": {}, \"rendered\": {}}}, \"rerun\": \"replay render_wide\"}}",
                         tried, crate::js(t), width, crate::js(msg), crate::js(&want), crate::jlist(&got));
+                }
+            }
+        }
+    }
+    format!("{{\"found\": false, \"tried\": {}}}", tried)
+}
+
+/// C13: `{bar:N}` geometry on the real code: N cells, filled + partial + background in that order,
+/// full exactly when position >= length (lengths up to 2^24), empty at position 0, floor(fraction * N)
+/// filled cells wherever f32 rounding cannot matter.
+pub fn bar_cells(_args: &[String]) -> String {
+    std::panic::set_hook(Box::new(|_| {}));
+    let mut tried = 0u64;
+    for n in [1usize, 2, 5, 10, 20, 37] {
+        let t = format!("{{bar:{}}}", n);
+        let style = ProgressStyle::with_template(&t).unwrap().progress_chars("#>-");
+        for len in [1u64, 2, 3, 7, 10, 100, 1000, 1_000_000, 16_777_216] {
+            let mut ps = vec![0u64, 1, len / 3, len / 2, len.saturating_sub(1), len, len + 1, 2 * len];
+            ps.dedup();
+            for pos in ps {
+                let f = frame(&style, Some(len), pos, "", "", 0, 0, 80);
+                tried += 1;
+                let line = f.lines.get(0).map(|l| l.1.clone()).unwrap_or_default();
+                let filled = line.chars().take_while(|c| *c == '#').count();
+                let head = line.chars().skip(filled).take_while(|c| *c == '>').count();
+                let bg = line.chars().skip(filled + head).take_while(|c| *c == '-').count();
+                let mut bad = None;
+                if filled + head + bg != n || line.chars().count() != n || head > 1 {
+                    bad = Some("the bar occupies exactly N cells: filled, at most one partial, background");
+                } else if (filled == n) != (pos >= len) {
+                    bad = Some("filled == cells exactly when position >= length");
+                } else if pos == 0 && (filled != 0 || head != 0) {
+                    bad = Some("empty at position 0");
+                } else if len <= 1000 && pos <= len && filled as u64 != pos * n as u64 / len {
+                    bad = Some("filled == floor(fraction * cells)");
+                } else if (head == 1) != (pos > 0 && filled < n) {
+                    bad = Some("a partial cell exactly when the bar is neither empty nor full");
+                }
+                if let Some(b) = bad {
+                    return format!("{{\"found\": true, \"clause\": {}, \"tried\": {}, \"input\": {{\"template\": {}, \"pos\": {}, \"len\": {}, \"rendered\": {}}}, \"rerun\": \"replay bar_cells\"}}",
+                        crate::js(&format!("C13 {}", b)), tried, crate::js(&t), pos, len, crate::js(&line));
                 }
             }
         }
